@@ -57,6 +57,7 @@ OTHER_RULES = {
     "C10": [
         ("with-shadows-lexical-binders", lambda s, d: "with" in s.split("|")[1]),
         ("inherit-in-rec-set-reported-cyclic", lambda s, d: "rec_inherit_a" in s),
+        ("chain-link-resolved-in-inner-scope", lambda s, d: "let_a_is_z" in s),
     ],
     "C11": [
         ("with-shadows-lexical-binders", lambda s, d: "with" in s.split("|")[2]),
@@ -83,6 +84,7 @@ OTHER_RULES = {
 OTHER_META = {
     "with-shadows-lexical-binders": ("a `with` environment is consulted before enclosing let / rec / formal binders", "resolution.py:scopes_for_owner appends the with-environment scope after the lexical scopes and identifier.py:_resolve_identifier searches innermost-last, so `with` wins over every lexical binder outside it"),
     "inherit-in-rec-set-reported-cyclic": ("`rec { inherit a; }` reached through the document reports a cyclic inherit instead of the enclosing binding", "set.py:AttributeSet.__getitem__ builds the chain scopes_for_owner(self)+[self] and for a rec set scopes_for_owner already contains the set itself, so the inherit finds itself"),
+    "chain-link-resolved-in-inner-scope": ("the next link of a reference chain is looked up from a scope that is further in than the binding holding it (a rec set between them): `let a = z; in let z = 2; in rec { … x = a; }` resolves to 2 although z is not in scope of `a = z`", "resolution.py:scopes_for_owner re-attaches the whole accumulated chain to the rec set's scope, and identifier.py:_resolve_binding then continues from there"),
     "lambda-argument-not-writable": ("assignment through a reference bound by `(a: …) v` does not change the document", "resolution.py:function_call_scope builds a throw-away Binding for the positional argument; the setter updates that copy"),
     "cli-sibling-and-outer-scope-fallbacks": ("the CLI rewrites a sibling / outer binding that Nix scoping does not designate (non-rec sibling, outermost let instead of the innermost binder)", "cli/manipulations.py:_set_value_in_attrset falls back to let_bindings of the *top-level* expression and to sibling_binding of a non-recursive set"),
     "bare-segment-trailing-newline": ("a bare path segment followed by a newline is accepted and written unquoted (the name silently loses the newline)", "cli/manipulations.py:_NPATH_IDENTIFIER_RE uses `$`, which matches before a trailing newline"),
